@@ -290,6 +290,25 @@ protected:
       handleFrame(sid, *frame);
     }
 
+    // The remainder is one incomplete frame. A frame within _maxFrameSize has at
+    // most kMaxFrameHeaderSize + _maxFrameSize bytes, so a larger remainder can
+    // never complete into an acceptable frame — close instead of buffering it.
+    const std::size_t pending = localBuffer.size() - offset;
+    if (pending > kMaxFrameHeaderSize && pending - kMaxFrameHeaderSize > _maxFrameSize)
+    {
+      sendClose(sid, 1009, "Message Too Big");
+      if (_onError)
+      {
+        _onError(sid, "Frame exceeded maxFrameSize");
+      }
+      {
+        std::lock_guard<std::mutex> lock(_wsMutex);
+        _sessions.erase(sid);
+      }
+      closeSession(sid);
+      return;
+    }
+
     // Put unconsumed remainder back
     if (offset < localBuffer.size())
     {
@@ -467,6 +486,9 @@ private:
     std::string negotiatedProtocol;
     bool closeSent = false; // prevents double close-frame echo
   };
+
+  // Largest frame header: 2 bytes + 8-byte extended length + 4-byte mask key.
+  static constexpr std::size_t kMaxFrameHeaderSize = 14;
 
   mutable std::mutex _wsMutex; // mutable so the const isSessionActive can lock it
   std::unordered_map<SessionId, WsSessionState> _sessions;
